@@ -58,6 +58,7 @@ Proof.
       apply conv_sepx; [|exact H5]. intros a G. apply (get_short_in c o a G).
   - unfold posx_ok. rewrite H2. cbn [andb]. destruct (pos_ok_parts _ _ _ H2) as [a [v [vs' [Hg _]]]]. rewrite Hg.
     destruct (conv_args c Hconv a (get_pos_in c pos a Hg)) as [_ [_ [_ Ht]]].
+    destruct (conv_args_pos c Hconv a (get_pos_in c pos a Hg)) as [Hlast Htva]. rewrite Hlast, Htva. cbn [negb]. rewrite !andb_true_r.
     apply forallb_forall. intros w _. unfold check_terminator. rewrite Ht. reflexivity.
 Qed.
 
